@@ -19,8 +19,8 @@ def run(tier):
     chk = Check("C12", tier, "model_checking")
     build_harness("hfeat")
     jobs = [lambda: lu_run(2, "ReSetN2", "lu_2"), lambda: lu_run(3, "ReSetN3" if tier == "quick" else "ReSetN3T", "lu_3"),
-            lambda: jacobi_run(2), lambda: jacobi_run(3)]
-    runs = parallel(jobs, 4)
+            lambda: jacobi_run(2), lambda: jacobi_run(3), lambda: jacobi_run(4)]
+    runs = parallel(jobs, 5)
     for r in runs[2:]:
         chk.add_tlc(r, "jacobi_eigenvalue as a step machine (Sweep / Rot / Sort) on the rational-rotation family, block at every "
                        "position (p, q): A V = V diag(d), V^T V = I, ascending, Hellmann-Feynman, one rotation")
